@@ -1388,6 +1388,10 @@ def target_worker_thread(host: str, port: int, shared_aconf: AuditConf) -> Tuple
     except Exception:
         ret = -1
         string_output = "An exception occurred while scanning %s:%d:\n%s" % (host, port, str(traceback.format_exc()))
+    finally:
+        # Delete this thread's local copy of the algorithm databases.  Pool threads are re-used for subsequent targets, which must not start from the copy that this scan modified.
+        SSH1_KexDB.thread_exit()
+        SSH2_KexDB.thread_exit()
 
     return ret, string_output
 
